@@ -10,7 +10,7 @@ from ..model import lexref
 from . import lexcommon
 
 TOKEN_ALPHABET = ["(", ")", "{", "}", "[", "]", ";", ",", "=", "*", "#", ":", "?", '"', "'", "\\", "ident", "42", "if", "else",
-                  "while", "return", "int", "struct"]
+                  "while", "return", "int", "struct", "elif", "endif"]
 RUN_CLASSES = {"unmatched": "@", "hash": "#", "splice": "\\\n", "dquote": '"', "squote": "'", "lparen": "(", "backslash": "\\",
                "star": "*", "lbrace": "{", "digit": "1", "zero": "0", "nine": "9", "letter": "a", "dot": ".", "exp": "e", "hexx": "x",
                "space": " ", "tab": "\t", "newline": "\n", "semicolon": ";", "slash": "/", "minus": "-", "plus": "+", "question": "?",
@@ -103,7 +103,16 @@ def pipeline_total(fname, text, via_main=False):
     """None, or (signature, detail).  The run must end in a verdict or in CParsingError."""
     ntok = text.count(" ") + text.count("\n") + len(text) // 3
     r = impl.run_text(fname, text, fuel=fuel_for(text, ntok))
-    if r.exc is None or r.exc[0] == "CParsingError":
+    if r.exc is None:
+        # "ends with a verdict for the file": the verdict has to be printable -- both report formats are produced
+        for fmt in ("humanized", "json"):
+            try:
+                impl.format_files([r.file], fmt)
+            except Exception as e:  # noqa: BLE001
+                info = impl._exc_info(e)
+                return f"report:{info[0]}@{info[2]}", f"the {fmt} report cannot be produced: {info[0]}: {info[1][:100]} (in {info[2]})"
+        return None
+    if r.exc[0] == "CParsingError":
         return None
     return f"{r.exc[0]}@{r.exc[2]}", f"{r.exc[0]}: {r.exc[1][:100]} (in {r.exc[2]})"
 
